@@ -8,14 +8,22 @@
     functions, every model, state and time.  Vocabulary ([WF], [comp_holds], [OnlyParams]): Spec.v. *)
 From Coq Require Import ZArith List Bool.
 From MxlBase Require Import ListX.
-From Core Require Import Sort GenSortFacts Model Cache Query GenQueryFacts.
+From Core Require Import Sort GenSortFacts Model Cache Query GenQueryFacts GenCacheFacts.
 From Core Require FnLib.
-From CoreP Require Import Spec ProofsTop ExModel.
+From CoreP Require Import Spec ProofsTop ProofsUnique ExModel.
 Import ListNotations.
 
 Theorem C13_facts_pinned : gen_query_facts = mkQueryFacts true true true.
 Proof. vm_compute. reflexivity. Qed.
 Print Assumptions C13_facts_pinned.
+
+(** the body of [Model._create_cache] is statement for statement (ast-normalised) the one modelled
+    in ../core/Cache.v: any edit of the cache construction (plain/assigned split, the Dependency
+    list, the evaluation pass at time 0, the static/dynamic split, the coefficient tables,
+    all_parameter_values) breaks this obligation *)
+Theorem C13_cache_shape_pinned : gen_cache_shape = true.
+Proof. vm_compute. reflexivity. Qed.
+Print Assumptions C13_cache_shape_pinned.
 
 (** C13-a: initial assignments are evaluated once, at time 0, from the declared initial state,
     after everything they name: there is ONE environment [e0] (time = 0, plain parameters and
@@ -57,6 +65,22 @@ Theorem C13_frozen :
     lookup k e = lookup k e' /\ lookup k e = lookup k (c_all_par c).
 Proof. exact (frozen_top gen_sort_facts gen_sc). Qed.
 Print Assumptions C13_frozen.
+
+(** the environment [e0] of C13-a is unique: for an acyclic graph, two environments that agree on
+    the plain parameters, plain initial values, data sets and time, and in both of which every
+    initial assignment, derived quantity, rate and surrogate is its function applied to the values
+    its arguments have, agree on every name of the model -- "computed once, after everything they
+    name" leaves no freedom *)
+Theorem C13_initial_env_unique :
+  forall fsem fsemN m (e1 e2 : env),
+    Acyclic (base_available m) (map dep_of (to_sort m)) ->
+    (forall k, In k (base_available m) -> lookup k e1 = lookup k e2) ->
+    (forall nm cmp, In (nm, cmp) (to_sort m) ->
+        comp_holds fsem fsemN nm cmp e1 /\ comp_holds fsem fsemN nm cmp e2) ->
+    forall k, In k (base_available m) \/ In k (flat_map (fun kc => comp_outs (fst kc) (snd kc)) (to_sort m)) ->
+              lookup k e1 = lookup k e2.
+Proof. exact initial_env_unique. Qed.
+Print Assumptions C13_initial_env_unique.
 
 (** "every other derived quantity, flux and computed coefficient is recomputed from the state
     supplied" is C01_args_fully_resolved / C01_rhs_is_stoichiometry_times_rates (PropsC01.v). *)
